@@ -392,14 +392,64 @@ func (r *Reg) Heap(name, sort string) string {
 	return name
 }
 
-func (r *Reg) CellHeap(sort string) string {
-	return r.Heap("Cell_"+sortID(sort), ArraySort("Ref", sort))
+// TypeKey is the name of the heap component a memory cell of Go type t lives
+// in. Go's type system guarantees that a cell is only ever accessed at its own
+// type (unsafe and pointer conversions between identical underlying types
+// aside, which is why named non-struct types are keyed by their underlying
+// type), so cells with different keys cannot alias (Burstall-Bornat).
+func (r *Reg) TypeKey(t types.Type) string {
+	switch u := types.Unalias(t).(type) {
+	case *types.Named:
+		switch u.Underlying().(type) {
+		case *types.Struct:
+			return sanitize(shortenType(types.TypeString(u, nil)))
+		case *types.Interface:
+			if u.Underlying().(*types.Interface).NumMethods() == 0 {
+				return "any"
+			}
+			return sanitize(shortenType(types.TypeString(u, nil)))
+		}
+		return r.TypeKey(u.Underlying())
+	case *types.Basic:
+		switch u.Kind() {
+		case types.UntypedNil, types.UnsafePointer:
+			return "ptr"
+		}
+		return u.Name()
+	case *types.Pointer:
+		return "P" + r.TypeKey(u.Elem())
+	case *types.Slice:
+		return "S" + r.TypeKey(u.Elem())
+	case *types.Array:
+		return fmt.Sprintf("A%d%s", u.Len(), r.TypeKey(u.Elem()))
+	case *types.Map:
+		return "M" + r.TypeKey(u.Key()) + "_" + r.TypeKey(u.Elem())
+	case *types.Chan:
+		return "C" + r.TypeKey(u.Elem())
+	case *types.Signature:
+		return "func"
+	case *types.Interface:
+		if u.NumMethods() == 0 {
+			return "any"
+		}
+		return "iface"
+	case *types.Struct:
+		return r.structOf(t).Name
+	}
+	return "opaque"
 }
-func (r *Reg) MDomHeap(k string) string {
-	return r.Heap("MDom_"+sortID(k), ArraySort("Ref", ArraySort(k, "Bool")))
+
+// CellHeapT: the heap of cells of Go type t.
+func (r *Reg) CellHeapT(t types.Type) string {
+	return r.Heap("Cell_"+r.TypeKey(t), ArraySort("Ref", r.SortOf(t)))
 }
-func (r *Reg) MValHeap(k, v string) string {
-	return r.Heap("MVal_"+sortID(k)+"__"+sortID(v), ArraySort("Ref", ArraySort(k, v)))
+
+// MDomHeapT / MValHeapT: key presence and values of maps of Go type mt.
+func (r *Reg) MDomHeapT(mt *types.Map) string {
+	return r.Heap("MDom_"+r.TypeKey(mt), ArraySort("Ref", ArraySort(r.SortOf(mt.Key()), "Bool")))
+}
+func (r *Reg) MValHeapT(mt *types.Map) string {
+	return r.Heap("MVal_"+r.TypeKey(mt), ArraySort("Ref", ArraySort(r.SortOf(mt.Key()), r.SortOf(mt.Elem()))))
 }
 func (r *Reg) VisitedHeap(k string) string {
 	return r.Heap("Visited_"+sortID(k), ArraySort("Ref", ArraySort(k, "Bool")))
